@@ -296,12 +296,10 @@ example :
 /-- **Termination — partial.** If the set of path STRINGS that can be stat-ed is finite (`files` lists
 them all), the merge never runs out of fuel when given at least `|files| + 1` levels: every nested
 `dfsMerge` call has added a new, existing path to the duplicate-free visited list, so the nesting
-depth is bounded by the number of paths (pigeonhole).  The driver runs with `|files| + 2` on the
-association-list file systems of the harness, for which the hypothesis holds.
-What is missing for "all include graphs over a directory tree": on a real file system one file has
-infinitely many spellings (`/e/a.dae`, `/e/./a.dae`, `/e/x/../a.dae` …), so `hfiles` cannot be met;
-the real argument (only finitely many spellings are WRITTEN in finitely many files, relative ones
-are cleaned by `Join`) is not proved. -/
+depth is bounded by the number of paths (pigeonhole).
+The hypothesis `hfiles` cannot be met on a real file system, where one file has infinitely many
+spellings (`/e/a.dae`, `/e/./a.dae`, `/e/x/../a.dae` …); `merge_terminates` above is the theorem
+for that case (finite closed universe of WRITTEN spellings), and it is the bound the driver uses. -/
 theorem merge_terminates_partial (K : Classes) (fs : FS) (files : List (List Char)) (entry : List Char) (fuel : Nat)
     (hfiles : ∀ p, (fs.stat p).isSome = true → p ∈ files) (hfuel : files.length + 1 ≤ fuel) :
     (merge K fs fuel entry).2 ≠ .error .fuel :=
